@@ -45,6 +45,13 @@ def _parse_v4(s):
         raise AddrFormatError('invalid IPv4 address: %r' % (s,))
     octs = []
     for p in parts:
+        x_ = _rope_int(p)
+        if x_ is not None:
+            # canonical decimal text of an int: digits only, no leading zero
+            if x_ > 255:
+                raise AddrFormatError('invalid IPv4 address')
+            octs.append(x_)
+            continue
         if len(p) == 0 or len(p) > 3:
             raise AddrFormatError('invalid IPv4 address')
         for ch in p:
@@ -59,6 +66,17 @@ def _parse_v4(s):
             raise AddrFormatError('invalid IPv4 address')
         octs.append(o)
     return _mk_int(octs), tuple(octs)
+
+
+def _rope_int(p):
+    try:
+        from vf.engine.rope import Rope
+    except Exception:  # pragma: no cover
+        return None
+    with NoTracing():
+        if isinstance(p, Rope):
+            return p._single_int()
+    return None
 
 
 def _mk_int(octs):
@@ -165,7 +183,7 @@ def IPAddress(addr, version=None, flags=0):
             return _real.IPAddress(addr, flags=flags)
         return _real.IPAddress(addr, version=version, flags=flags)
     with NoTracing():
-        is_str = isinstance(addr, CrossHairValue) and hasattr(addr, 'split')
+        is_str = isinstance(addr, CrossHairValue) and (hasattr(type(addr), 'split') or hasattr(addr, 'split'))
     if is_str:
         if ':' in addr:
             return _real.IPAddress(deep_realize(addr))
@@ -173,10 +191,58 @@ def IPAddress(addr, version=None, flags=0):
         return SymIPv4(v_, o_)
     # symbolic integer
     if version == 6:
-        return _real.IPAddress(deep_realize(addr), version=6)
-    if addr < 0 or addr > 0xFFFFFFFF:
+        return SymIPv6(addr)
+    if addr < 0:
         return _real.IPAddress(deep_realize(addr))
+    if addr > 0xFFFFFFFF:
+        if addr >= 2 ** 128:
+            raise AddrFormatError('address out of range')
+        return SymIPv6(addr)
     return SymIPv4(addr)
+
+
+class SymIPv6(object):
+    """IPAddress with a symbolic 128-bit value.  Its RFC 5952 text is not modelled: str() gives a rope with
+    a lazy part that realises the value only if somebody actually looks at the characters."""
+    version = 6
+
+    def __init__(self, value):
+        self._value = value
+
+    @property
+    def value(self):
+        return self._value
+
+    def __int__(self):
+        return self._value
+
+    def __index__(self):
+        return self._value
+
+    def __vf_int__(self):
+        return self._value
+
+    @property
+    def packed(self):
+        return self._value.to_bytes(16, 'big')
+
+    def __str__(self):
+        from vf.engine.rope import Rope, Lazy
+        v = self._value
+        with NoTracing():
+            return Rope([Lazy(lambda: str(_real.IPAddress(int(deep_realize(v)), version=6)))])
+
+    def __repr__(self):
+        return "IPAddress('%s')" % self
+
+    def __eq__(self, o):
+        try:
+            return self._value == int(o)
+        except Exception:
+            return NotImplemented
+
+    def __hash__(self):
+        return hash(self._value)
 
 
 class SymIPv4Network(object):
@@ -209,6 +275,11 @@ def IPNetwork(addr, version=None, flags=0):
     if len(parts) != 2:
         raise AddrFormatError('invalid IPNetwork %r' % (addr,))
     plen_s = parts[1]
+    x_ = _rope_int(plen_s)
+    if x_ is not None:
+        if x_ > 32:
+            raise AddrFormatError('invalid prefix')
+        return SymIPv4Network(_parse_v4(parts[0]), x_)
     if len(plen_s) == 0 or len(plen_s) > 2:
         return _real.IPNetwork(deep_realize(addr))
     for ch in plen_s:
@@ -221,7 +292,37 @@ def IPNetwork(addr, version=None, flags=0):
     return SymIPv4Network(_parse_v4(parts[0]), plen)
 
 
+class SymEUI(object):
+    """EUI-48 with a symbolic value: text 'AA-BB-CC-DD-EE-FF' is a rope with a lazy part"""
+
+    def __init__(self, value):
+        self._value = value
+
+    @property
+    def value(self):
+        return self._value
+
+    def __int__(self):
+        return self._value
+
+    def __vf_int__(self):
+        return self._value
+
+    def __str__(self):
+        from vf.engine.rope import Rope, Lazy
+        v = self._value
+        with NoTracing():
+            return Rope([Lazy(lambda: str(_real.EUI(int(deep_realize(v)))))])
+
+
 def EUI(addr, *a, **kw):
+    if _is_sym(addr) and not a and not kw:
+        with NoTracing():
+            is_int = hasattr(addr, 'var') and not hasattr(type(addr), 'split')
+        if is_int:
+            if addr < 0 or addr >= 2 ** 48:
+                return _real.EUI(deep_realize(addr))
+            return SymEUI(addr)
     if _is_sym(addr):
         addr = deep_realize(addr)
     return _real.EUI(addr, *a, **kw)
